@@ -1,11 +1,13 @@
 // Command gen/c07 prints coq/Gen/C07Facts.v from the /repo working tree (terms, never verdicts):
-// the ordered decorator list of NewAnteHandlerEVM and the textual normal forms of the nonce
-// check / increment, the signer construction and the msg-server nonce bracket.
+// the ordered decorator list of NewAnteHandlerEVM and syntactic facts (taken from the AST, so
+// renaming variables or reformatting does not change them) about the nonce check / increment,
+// the signer construction and the msg-server nonce bracket.
 package main
 
 import (
 	"fmt"
 	"go/ast"
+	"go/token"
 	"strings"
 
 	. "verifharness/genlib"
@@ -36,8 +38,58 @@ func calleeName(e ast.Expr) string {
 		return x.Name
 	case *ast.UnaryExpr:
 		return calleeName(x.X)
+	case *ast.StarExpr:
+		return calleeName(x.X)
+	case *ast.ParenExpr:
+		return calleeName(x.X)
 	}
 	return "?"
+}
+
+// isMethodCall: e is a call `<recv>.<name>(…)`.
+func isMethodCall(e ast.Expr, name string) bool {
+	c, ok := e.(*ast.CallExpr)
+	if !ok {
+		return false
+	}
+	s, ok := c.Fun.(*ast.SelectorExpr)
+	return ok && s.Sel.Name == name
+}
+
+func identName(e ast.Expr) string {
+	if id, ok := e.(*ast.Ident); ok {
+		return id.Name
+	}
+	return ""
+}
+
+func isOne(e ast.Expr) bool {
+	b, ok := e.(*ast.BasicLit)
+	return ok && b.Kind == token.INT && b.Value == "1"
+}
+
+func returnsError(b *ast.BlockStmt) bool {
+	for _, st := range b.List {
+		if r, ok := st.(*ast.ReturnStmt); ok && len(r.Results) == 2 && identName(r.Results[1]) != "nil" {
+			return true
+		}
+	}
+	return false
+}
+
+func methodOf(files []File, recvType, name string) *ast.FuncDecl {
+	for _, fl := range files {
+		for _, dd := range fl.F.Decls {
+			fd, ok := dd.(*ast.FuncDecl)
+			if !ok || fd.Body == nil || fd.Recv == nil || fd.Name.Name != name || len(fd.Recv.List) == 0 {
+				continue
+			}
+			if calleeName(fd.Recv.List[0].Type) == recvType {
+				return fd
+			}
+		}
+	}
+	return nil
 }
 
 func main() {
@@ -72,58 +124,160 @@ func main() {
 		})
 	}
 
-	// 2. increment decorator: receiver method AnteHandle of AnteDecEthIncrementSenderSequence
-	var incBody, sigBody string
-	for _, fl := range evmante {
-		for _, dd := range fl.F.Decls {
-			fd, ok := dd.(*ast.FuncDecl)
-			if !ok || fd.Body == nil || fd.Recv == nil || fd.Name.Name != "AnteHandle" || len(fd.Recv.List) == 0 {
-				continue
+	// 2. increment decorator
+	incCheck, incReads, incPlusOne := "CmpUnknown", false, false
+	if fd := methodOf(evmante, "AnteDecEthIncrementSenderSequence", "AnteHandle"); fd != nil {
+		seqVar := ""
+		setSeq, setAcc := token.NoPos, token.NoPos
+		ast.Inspect(fd.Body, func(n ast.Node) bool {
+			switch x := n.(type) {
+			case *ast.IfStmt:
+				if be, ok := x.Cond.(*ast.BinaryExpr); ok && returnsError(x.Body) {
+					var other ast.Expr
+					op := be.Op
+					if isMethodCall(be.X, "GetNonce") {
+						other = be.Y
+					} else if isMethodCall(be.Y, "GetNonce") {
+						other = be.X
+						switch op { // normalise to `txNonce OP seq`
+						case token.LSS:
+							op = token.GTR
+						case token.GTR:
+							op = token.LSS
+						case token.LEQ:
+							op = token.GEQ
+						case token.GEQ:
+							op = token.LEQ
+						}
+					}
+					if other != nil && identName(other) != "" {
+						seqVar = identName(other)
+						switch op {
+						case token.NEQ:
+							incCheck = "CmpNeqRejects"
+						case token.LSS:
+							incCheck = "CmpLtRejects"
+						case token.GTR:
+							incCheck = "CmpGtRejects"
+						}
+					}
+				}
 			}
-			switch calleeName(fd.Recv.List[0].Type) {
-			case "AnteDecEthIncrementSenderSequence":
-				incBody = Nospace(fd.Body)
-			case "EthSigVerificationDecorator":
-				sigBody = Nospace(fd.Body)
+			return true
+		})
+		ast.Inspect(fd.Body, func(n ast.Node) bool {
+			switch x := n.(type) {
+			case *ast.AssignStmt:
+				if len(x.Lhs) == 1 && len(x.Rhs) == 1 && identName(x.Lhs[0]) == seqVar && seqVar != "" && isMethodCall(x.Rhs[0], "GetSequence") {
+					incReads = true
+				}
+			case *ast.CallExpr:
+				if isMethodCall(x, "SetSequence") && len(x.Args) == 1 {
+					if be, ok := x.Args[0].(*ast.BinaryExpr); ok && be.Op == token.ADD && identName(be.X) == seqVar && seqVar != "" && isOne(be.Y) {
+						setSeq = x.Pos()
+					}
+				}
+				if isMethodCall(x, "SetAccount") && setSeq != token.NoPos && x.Pos() > setSeq {
+					setAcc = x.Pos()
+				}
 			}
-		}
+			return true
+		})
+		incPlusOne = setSeq != token.NoPos && setAcc != token.NoPos
 	}
-	incCheck := "CmpUnknown"
-	switch {
-	case strings.Contains(incBody, "iftxData.GetNonce()!=nonce{return"):
-		incCheck = "CmpNeqRejects"
-	case strings.Contains(incBody, "iftxData.GetNonce()<nonce{return"):
-		incCheck = "CmpLtRejects"
-	case strings.Contains(incBody, "iftxData.GetNonce()>nonce{return"):
-		incCheck = "CmpGtRejects"
+
+	// 3. signature decorator: which signer constructor, bound to the keeper's chain id, errors reject
+	sigCtor, sigChain, sigRejects, sigSetsFrom := "", false, false, false
+	if fd := methodOf(evmante, "EthSigVerificationDecorator", "AnteHandle"); fd != nil {
+		usesKeeperChainID, usesTxChainID := false, false
+		ast.Inspect(fd.Body, func(n ast.Node) bool {
+			switch x := n.(type) {
+			case *ast.CallExpr:
+				nm := calleeName(x)
+				switch nm {
+				case "MakeSigner", "NewLondonSigner", "NewEIP155Signer", "NewEIP2930Signer", "LatestSignerForChainID", "LatestSigner", "HomesteadSigner", "FrontierSigner":
+					sigCtor = nm
+				case "EthChainID":
+					usesKeeperChainID = true
+				case "ChainId", "GetChainID":
+					usesTxChainID = true
+				}
+			case *ast.CompositeLit:
+				if nm := calleeName(x); nm == "HomesteadSigner" || nm == "FrontierSigner" {
+					sigCtor = nm
+				}
+			case *ast.IfStmt:
+				if be, ok := x.Cond.(*ast.BinaryExpr); ok && be.Op == token.NEQ && identName(be.X) == "err" && identName(be.Y) == "nil" && returnsError(x.Body) {
+					sigRejects = true
+				}
+			case *ast.AssignStmt:
+				if len(x.Lhs) == 1 && len(x.Rhs) == 1 {
+					if s, ok := x.Lhs[0].(*ast.SelectorExpr); ok && s.Sel.Name == "From" && isMethodCall(x.Rhs[0], "Hex") {
+						sigSetsFrom = true
+					}
+				}
+			}
+			return true
+		})
+		sigChain = (sigCtor == "MakeSigner" || sigCtor == "NewLondonSigner" || sigCtor == "LatestSignerForChainID") && usesKeeperChainID && !usesTxChainID
 	}
-	incReads := strings.Contains(incBody, "acc:=issd.accountKeeper.GetAccount(ctx,msgEthTx.GetFrom())") &&
-		strings.Contains(incBody, "nonce:=acc.GetSequence()")
-	incPlusOne := strings.Contains(incBody, "acc.SetSequence(nonce+1)") && strings.Contains(incBody, "issd.accountKeeper.SetAccount(ctx,acc)")
-	// 3. signature decorator: signer bound to this chain's id, error on recovery failure, From := sender
-	sigChain := strings.Contains(sigBody, "chainID:=esvd.evmKeeper.EthChainID(ctx)") &&
-		strings.Contains(sigBody, "ethCfg:=evm.EthereumConfig(chainID)") &&
-		strings.Contains(sigBody, "signer:=gethcore.MakeSigner(ethCfg,blockNum)")
-	sigRejects := strings.Contains(sigBody, "sender,err:=signer.Sender(ethTx)iferr!=nil{returnctx,")
-	sigSetsFrom := strings.Contains(sigBody, "msgEthTx.From=sender.Hex()")
-	// 4. msg server: London signer of the chain config; nonce bracket around Create/Call
+
+	// 4. msg server: signer of the chain config; nonce bracket around Create/Call
 	msgSigner := false
 	if fd := kf["EthereumTx"]; fd != nil && fd.Body != nil {
-		msgSigner = strings.Contains(Nospace(fd.Body), "tx.AsMessage(gethcore.NewLondonSigner(evmCfg.ChainConfig.ChainID),evmCfg.BaseFeeWei)")
+		ast.Inspect(fd.Body, func(n ast.Node) bool {
+			if c, ok := n.(*ast.CallExpr); ok && isMethodCall(c, "AsMessage") && len(c.Args) >= 1 {
+				if sc, ok := c.Args[0].(*ast.CallExpr); ok {
+					nm := calleeName(sc)
+					arg := ""
+					if len(sc.Args) > 0 {
+						arg = Nospace(sc.Args[0])
+					}
+					msgSigner = (nm == "NewLondonSigner" || nm == "MakeSigner" || nm == "LatestSignerForChainID") &&
+						strings.Contains(arg, "ChainConfig") && !strings.Contains(arg, "tx.") && !strings.Contains(arg, "ChainId()")
+				}
+			}
+			return true
+		})
 	}
 	before, after := false, false
 	if fd := kf["ApplyEvmMsg"]; fd != nil && fd.Body != nil {
-		body := Nospace(fd.Body)
-		i := strings.Index(body, "evmObj.StateDB.SetNonce(msg.From(),msg.Nonce())")
-		j := strings.Index(body, "evmObj.Create(")
-		k := strings.Index(body, "evmObj.Call(")
-		l := strings.Index(body, "evmObj.StateDB.SetNonce(msg.From(),msg.Nonce()+1)")
-		before = i >= 0 && j > i && k > i
-		after = l >= 0 && l > j && l > k && j >= 0 && k >= 0
+		var setN, setN1, firstExec, lastExec token.Pos
+		ast.Inspect(fd.Body, func(n ast.Node) bool {
+			c, ok := n.(*ast.CallExpr)
+			if !ok {
+				return true
+			}
+			if isMethodCall(c, "SetNonce") && len(c.Args) == 2 && isMethodCall(c.Args[0], "From") {
+				if isMethodCall(c.Args[1], "Nonce") && setN == token.NoPos {
+					setN = c.Pos()
+				}
+				if be, ok := c.Args[1].(*ast.BinaryExpr); ok && be.Op == token.ADD && isMethodCall(be.X, "Nonce") && isOne(be.Y) {
+					setN1 = c.Pos()
+				}
+			}
+			if isMethodCall(c, "Create") || isMethodCall(c, "Call") {
+				if s, ok := c.Fun.(*ast.SelectorExpr); ok && identName(s.X) == "evmObj" {
+					if firstExec == token.NoPos {
+						firstExec = c.Pos()
+					}
+					lastExec = c.Pos()
+				}
+			}
+			return true
+		})
+		before = setN != token.NoPos && firstExec != token.NoPos && setN < firstExec
+		after = setN1 != token.NoPos && lastExec != token.NoPos && setN1 > lastExec
 	}
 	createAddr := false
 	if fd := kf["EmitEthereumTxEvents"]; fd != nil && fd.Body != nil {
-		createAddr = strings.Contains(Nospace(fd.Body), "crypto.CreateAddress(msg.From(),msg.Nonce())")
+		ast.Inspect(fd.Body, func(n ast.Node) bool {
+			if c, ok := n.(*ast.CallExpr); ok && calleeName(c) == "CreateAddress" && len(c.Args) == 2 &&
+				isMethodCall(c.Args[0], "From") && isMethodCall(c.Args[1], "Nonce") {
+				createAddr = true
+			}
+			return true
+		})
 	}
 
 	fmt.Println("Require Import Nib.C07.Model Nib.C07.Facts.")
@@ -137,6 +291,7 @@ func main() {
 		fmt.Printf("  %s%s (* %s *)\n", c.coq, sep, c.src)
 	}
 	fmt.Println("].")
+	fmt.Printf("Definition sig_signer_constructor : string := %s.\n", CoqString(sigCtor))
 	fmt.Println("Definition current_facts : facts := {|")
 	fmt.Printf("  f_inc_check := %s;\n  f_inc_reads_account_sequence := %s;\n  f_inc_sets_plus_one := %s;\n", incCheck, CoqBool(incReads), CoqBool(incPlusOne))
 	fmt.Printf("  f_sig_signer_of_this_chain := %s;\n  f_sig_rejects_on_error := %s;\n  f_sig_sets_from := %s;\n", CoqBool(sigChain), CoqBool(sigRejects), CoqBool(sigSetsFrom))
